@@ -133,7 +133,7 @@ def armSoundIn (s : Scalar) (k : Kind) (a : Action) : Bool :=
   | .timeOfFloat => k.isFloat && s == .time
   | .timeParseKeep => k == .str && s == .time
   | .convStrict t => k.isFloat && ((s == .float && t == .f32) || (s == .float64 && t == .f64))
-  | .parseFloatFinite => k == .str && s == .float64
+  | .parseFloatFinite t => k == .str && s == .float64 && t == .f64
   | _ => false
 
 /-- the time scalar's output arms produce a `time`, formatted after the switch -/
@@ -170,6 +170,10 @@ def armSoundOutR (nullOnErr : Bool) (s : Scalar) (k : Kind) (a : Action) : Bool 
      | .time, .timeParseKeep => k == .str
      | .int, .convCheckedKeep .i32 => k.isInt
      | .int64, .convCheckedKeep .i64 => k.isInt
+     | .float, .convStrict .f32 => k.isFloat
+     | .float64, .convStrict .f64 => k.isFloat
+     | .float, .parseFloatFinite .f32 => k == .str
+     | .float64, .parseFloatFinite .f64 => k == .str
      | _, _ => false))
 
 /-- what the theorems assume of the Go runtime's floats: converting any Go integer gives a finite
